@@ -1,18 +1,26 @@
+/* C13-K2a: the real chunk driver (tokenizer_buf / tokenizer_lex of the current lex._tokenizer.c) under CBMC.
+ * yylex is replaced through YY_DECL by a stub returning arbitrary token codes; yy_scan_string / yy_delete_buffer
+ * bodies are removed by goto-instrument and supplied by c13/k2a_stubs.c (record what the driver hands over). */
 #include <stddef.h>
 typedef void* yyscan_t;
 int _tokenizerlex(yyscan_t yyscanner);
 #define YY_DECL int vx_real_yylex(yyscan_t yyscanner)
 #include "lex._tokenizer.c"
 int nondet_int(void);
-static int calls, eof_after;
-int _tokenizerlex(yyscan_t yyscanner) { int r = nondet_int(); __CPROVER_assume(r >= 0 && r <= 400); ++calls; return r; }
-static int reads, deliver[3];
+static int calls, spaces_in_row;
+int _tokenizerlex(yyscan_t yyscanner) {
+  int r = nondet_int(); __CPROVER_assume(r >= 0 && r <= 400); ++calls;
+  if (r == TOKEN_SPACE) { ++spaces_in_row; if (spaces_in_row > 1) r = TOKEN_KEYWORD; } else spaces_in_row = 0;   /* bound: at most one skipped space in a row */
+  return r; }
+extern int vx_scan_calls, vx_scan_len, vx_scan_terminated, vx_deleted;
+static int reads, deliver[4]; int vx_expected_len;
 static void rd(void *h, char *buf, int *len, int maxsize) {
-  __CPROVER_assert(maxsize == 1023, "reader is asked for at most 1023 bytes");
+  __CPROVER_assert(maxsize == 1023, "C13: the reader is asked for at most 1023 bytes (buffer of 1024 with terminator)");
   int n = nondet_int(); __CPROVER_assume(n >= 0 && n <= maxsize);
   if (reads >= 2) n = 0;
-  if (reads < 3) deliver[reads] = n;
-  ++reads; *len = n;          /* buf content: whatever is there (arbitrary) */
+  if (reads < 4) deliver[reads] = n;
+  for (int i = 0; i < 4; ++i) if (i < n) buf[i] = 'x';      /* content beyond is whatever is there */
+  ++reads; *len = n; vx_expected_len = n;
 }
 int main(void) {
   TOKEN_SCANNER sc = tokenizer_init(0, rd);
@@ -20,14 +28,16 @@ int main(void) {
   if (nondet_int()) tokenizer_enable_space(sc);
   int st0 = tokenizer_state(sc);
   for (int i = 0; i < 3; ++i) {
-    int t = -7; const char *tx = 0; int r0 = reads;
+    int t = -7; const char *tx = 0; int r0 = reads, s0 = vx_scan_calls;
     tokenizer_lex(sc, &t, &tx);
-    __CPROVER_assert(t >= 0, "token code or EOF");
-    if (t == 0) { __CPROVER_assert(reads > r0 && deliver[reads - 1 < 3 ? reads - 1 : 2] == 0, "EOF only after the reader delivered nothing"); break; }
-    __CPROVER_assert(tx != 0, "token text set");
-    __CPROVER_assert(t != TOKEN_SPACE || sc->enable_space, "spaces skipped unless enabled");
+    __CPROVER_assert(t >= 0, "C13: token code or EOF");
+    if (reads > r0 && deliver[reads - 1 < 4 ? reads - 1 : 3] > 0) {
+      __CPROVER_assert(vx_scan_calls == s0 + (reads - r0) && vx_scan_len == deliver[reads - 1 < 4 ? reads - 1 : 3] && vx_scan_terminated, "C13: every delivered fragment is handed to the scanner whole and NUL-terminated in bounds");
+    }
+    if (t == 0) { __CPROVER_assert(reads > r0 && deliver[reads - 1 < 4 ? reads - 1 : 3] == 0, "C13: EOF only after the reader delivered nothing"); break; }
+    __CPROVER_assert(t != TOKEN_SPACE || sc->enable_space, "C13: spaces skipped unless enabled");
   }
-  __CPROVER_assert(tokenizer_state(sc) == st0, "driver does not touch the start condition");
-  tokenizer_free(sc);
+  __CPROVER_assert(0, "WITNESS reachable");
+  __CPROVER_assert(tokenizer_state(sc) == st0, "C13: the driver does not touch the start condition (LITERAL/COMMENT survive a fragment switch)");
   return 0;
 }
